@@ -245,6 +245,7 @@ def make_models(env, pmod, link=False):
         "chmpy.shape._sht.AssocLegendre": ModelFn("contract:AssocLegendre(lm)", lambda I, lm: PlmStub(lm)),
         "builtins.c_idiv": ModelFn("C integer division truncates toward zero", lambda I, a, b: c_idiv(I, a, b)),
         "builtins.c_int": ModelFn("C double->int conversion truncates toward zero", lambda I, a: c_int(a)),
+        "builtins.c_fpow": ModelFn("Cython 3 double ** double (soft-complex power): real power for a base > 0, TypeError otherwise", lambda I, a, b: c_fpow(I, a, b)),
     }
     if pmod is not None:
         for name in ("analysis_kernel_real", "analysis_kernel_cplx", "synthesis_kernel_real", "synthesis_kernel_cplx", "expand_coeffs_to_full"):
@@ -263,6 +264,20 @@ def c_idiv(I, a, b):
         return q if (a >= 0) == (b > 0) else -q
     I.oblige("div-nonzero", b != 0)
     return c_trunc_div(a, b)
+
+
+def c_fpow(I, a, b):
+    """double ** double in Cython 3 without cpow: cpow(a + 0i, b + 0i) converted back by __Pyx_SoftComplexToDouble, which raises TypeError when
+    the imaginary part is not exactly 0.  For a > 0 the result is the real power; for a == 0 glibc's cpow gives nan + nan i (0 * -inf), for a < 0 a
+    complex number: both raise.  The precondition a > 0 is a safety obligation of the calling function."""
+    from pyvc.values import num_cmp
+    if not is_sym(a):
+        if to_frac(a) <= 0:
+            raise Unsupported("Cython double ** double with a non-positive constant base (TypeError at run time)")
+    else:
+        I.oblige("cpow-real-base-nonnegative", I.truth(num_cmp(">=", a, 0)), note="double ** double with a negative base is complex in Cython 3 (TypeError)")
+        I.oblige("cpow-real-base-nonzero", I.truth(num_cmp("!=", a, 0)), note="double ** double with a zero base gives nan + nan i in Cython 3 / glibc cpow (TypeError)")
+    return I.binop("**", a, b)
 
 
 def c_int(a):
@@ -415,6 +430,26 @@ def random_real_coeffs(rng, L):
     return c
 
 
+import contextlib
+
+
+@contextlib.contextmanager
+def quiet_stderr():
+    """Silence the interpreter's 'Exception ignored in ...' report of an exception swallowed by a compiled noexcept function (fd level)."""
+    import os as _os, sys as _sys
+    _sys.stderr.flush()
+    saved = _os.dup(2)
+    null = _os.open(_os.devnull, _os.O_WRONLY)
+    try:
+        _os.dup2(null, 2)
+        yield
+    finally:
+        _sys.stderr.flush()
+        _os.dup2(saved, 2)
+        _os.close(null)
+        _os.close(saved)
+
+
 class Native:
     def __init__(self, seed):
         self.seed = seed
@@ -455,6 +490,7 @@ CLAUSES = {
     "kernel_vs_python": "compiled kernels and pure-Python reference paths return the same arrays",
     "pointwise_real": "evaluate_at_points (real coefficients) equals sum c_lm Y_lm(theta, phi), i.e. agrees with synthesis",
     "pointwise_cplx": "evaluate_at_points (complex coefficients) equals sum c_lm Y_lm(theta, phi), i.e. agrees with synthesis",
+    "pointwise_pole": "evaluate_at_points at the poles (theta = 0, pi; cos(theta) = +-1 exactly) equals sum c_lm Y_lm(theta, phi)",
     "plm_compiled": "compiled AssocLegendre.evaluate_batch returns the orthonormal Pbar_l^m(x) in (m,l) order",
     "plm_python": "assoc_legendre.AssocLegendre.evaluate_batch returns the orthonormal Pbar_l^m(x) in (m,l) order",
     "expand": "complete_coefficients(real analysis) == complex analysis of the same real function: c(l,-m) = (-1)^m conj c(l,m)",
@@ -528,6 +564,16 @@ def _native_one_L(nat, seed, L, reps, L_ref, L_py, L_single):
             want = ref_at_points(L, cfull, pts_t, pts_p).real
             got = np.array([s.evaluate_at_points(c, t, p) for t, p in zip(pts_t, pts_p)])
             nat.check("pointwise_real", got, want, dict(inp, theta=pts_t.tolist(), phi=pts_p.tolist()))
+            # the poles: cos(theta) = +-1 exactly (each evaluation preceded by one at another point, so that stale work-array contents cannot pass for the answer)
+            pole_t = np.array([0.0, np.pi])
+            pole_p = np.array([0.3, 1.1])
+            wantq = ref_at_points(L, cfull, pole_t, pole_p).real
+            gotq = []
+            with quiet_stderr():
+                for t, p_ in zip(pole_t, pole_p):
+                    s.evaluate_at_points(c, 1.0, 2.0)
+                    gotq.append(s.evaluate_at_points(c, t, p_))
+            nat.check("pointwise_pole", np.array(gotq), wantq, dict(inp, theta=pole_t.tolist(), phi=pole_p.tolist(), preceded_by={"theta": 1.0, "phi": 2.0}))
             xq = float(np.cos(pts_t[0]))
             wantp = np.zeros(nplm(L))
             tab1 = ref_theta_table(L, pts_t[:1])
@@ -891,6 +937,23 @@ def build(ctx):
                   clause="for all x in [-1,1] and all coefficient tables: result[plm_index(m,l)] is the three-term recurrence value of Pbar_l^m(x) (m-major order, no stale cache read), written into the caller's array")
         ctx.safety(f"{tag}.evaluate_batch/L={L}", res, replay=rp, fn=fsrc)
 
+    def compiled_plm_replay(L):
+        seeded = replay_for("plm_compiled")
+
+        def rp(model):
+            """Run the compiled evaluate_batch at the counter-model's x into a sentinel-filled array and compare with the pure-Python class."""
+            from chmpy.shape.assoc_legendre import AssocLegendre as PyAL
+            from chmpy.shape._sht import AssocLegendre as CyAL
+            x = float(Fraction(str((model or {}).get("x", "1"))))
+            with quiet_stderr():
+                got = CyAL(L).evaluate_batch(x, result=np.full(nplm(L), 7.0))
+            want = PyAL(L).evaluate_batch(x)
+            if not np.allclose(got, want, rtol=0, atol=1e-9):
+                return {"native_inputs": {"L": L, "x": x, "result_prefilled_with": 7.0}, "reproduced": True,
+                        "observed": f"compiled evaluate_batch({x}) leaves {got.tolist()[:6]}..., pure Python gives {want.tolist()[:6]}..."}
+            return seeded(model)
+        return rp
+
     f_evb_py = ctx.fn(AL, "AssocLegendre.evaluate_batch")
     PALc = I1.class_of(pmod, "AssocLegendre") if pmod is not None else None
     ALc1 = I1.class_of(almod, "AssocLegendre")
@@ -899,7 +962,7 @@ def build(ctx):
                     lambda L=L: ob_evaluate_batch(L, ALc1, "assoc_legendre.AssocLegendre", f_evb_py, replay_for("plm_python")), fn=f_evb_py)
         if pmod is not None:
             ctx.attempt(f"_sht.AssocLegendre.evaluate_batch/ensures/recurrence_in_plm_order/L={L}",
-                        lambda L=L: ob_evaluate_batch(L, PALc, "_sht.AssocLegendre", c07_pyx.PyxFn(pmod, "AssocLegendre.evaluate_batch_cython"), replay_for("plm_compiled")))
+                        lambda L=L: ob_evaluate_batch(L, PALc, "_sht.AssocLegendre", c07_pyx.PyxFn(pmod, "AssocLegendre.evaluate_batch_cython"), compiled_plm_replay(L)))
 
     def ob_placement(L):
         """G: the tables built by the constructors hold, at [l, m], exactly the values of a_lm / b_lm / a_mm proved above (same deterministic terms)."""
@@ -1216,6 +1279,7 @@ def build(ctx):
         "round_trips": ["roundtrip_real_as", "roundtrip_real_sa", "roundtrip_cplx_as", "roundtrip_cplx_sa"],
         "kernels_vs_pure_python": ["py_real_analysis", "py_cplx_analysis", "py_real_synthesis", "py_cplx_synthesis", "kernel_vs_python"],
         "pointwise_evaluation": ["pointwise_real", "pointwise_cplx"],
+        "pointwise_evaluation_at_the_poles": ["pointwise_pole"],
         "real_to_full_expansion": ["expand"],
         "linearity": ["linear_analysis", "linear_synthesis"],
         "parseval": ["parseval_real", "parseval_cplx"],
